@@ -141,10 +141,10 @@ class World:
         self.gstate[:] = gnew
         return res
 
-    def bus_pass(self, frame, wrong):
+    def bus_pass(self, frame, wrong, delta=1):
         """the terminals process a frame that went back to the bus: every
         enabled datagram gets its working counter (wrong ones are off by
-        one)"""
+        `delta`)"""
         out = bytearray(frame)
         for k, (pos, want) in enumerate(sorted(self.expected.items())):
             # the datagram's command byte sits at pos - 10 - len(data);
@@ -163,7 +163,7 @@ class World:
             if cmd != 0:
                 want = self.expected.get(wpos - ETH, 1)
                 cur = out[wpos] | (out[wpos + 1] << 8)
-                inc = want + (1 if n in wrong else 0)
+                inc = want + (delta if n in wrong else 0)
                 struct.pack_into("<H", out, wpos, (cur + inc) & 0xffff)
             n += 1
             p = wpos + 2
